@@ -4,8 +4,12 @@ Import ListNotations.
 Open Scope N_scope.
 
 (* how the NCP answers one keep-alive command *)
-Inductive ans := AOk | ATimeout | AEzspError.
-Definition ans_ok (a : ans) : bool := match a with AOk => true | _ => false end.
+Inductive ans :=
+| AOk
+| ANoValue        (* the command returned, with a status other than success (e.g. the free-buffer read is not
+                     supported): the keep-alive itself succeeded *)
+| ATimeout | AEzspError.
+Definition ans_ok (a : ans) : bool := match a with AOk | ANoValue => true | _ => false end.
 
 (* keep-alive commands as the NCP sees them *)
 Inductive kcmd := KNop | KReadCounters | KReadAndClearCounters | KGetValue.
@@ -53,6 +57,6 @@ End Feed.
 (* encoding for the correspondence *)
 Definition kcmd_code (k : kcmd) : Z :=
   match k with KNop => 1%Z | KReadCounters => 2%Z | KReadAndClearCounters => 3%Z | KGetValue => 4%Z end.
-Definition ans_of (n : N) : ans := if n =? 0 then AOk else if n =? 1 then ATimeout else AEzspError.
+Definition ans_of (n : N) : ans := if n =? 0 then AOk else if n =? 1 then ATimeout else if n =? 2 then AEzspError else ANoValue.
 Definition encode_run (r : list (bool * list kcmd)) : list Z :=
   flat_map (fun x : bool * list kcmd => (if fst x then 1%Z else 0%Z) :: Z.of_nat (length (snd x)) :: map kcmd_code (snd x)) r.
